@@ -628,6 +628,7 @@ def _num(v: str) -> int:
 BUILTIN_METHODS = {
     'iter', 'into_iter', 'contains', 'push', 'pop', 'last', 'clear', 'len', 'is_empty', 'next', 'expect', 'unwrap',
     'is_none', 'is_some', 'clone', 'as_ref', 'position', 'find', 'any', 'take', 'for_each',
+    'by_ref', 'copied', 'cloned', 'collect', 'all', 'is_some_and', 'to_vec',
 }
 
 PY_KEYWORDS = {'from', 'not', 'in', 'is', 'lambda', 'def', 'class', 'pass', 'None', 'True', 'False', 'and', 'or', 'global', 'with', 'as', 'del', 'try', 'except', 'raise', 'yield', 'assert', 'import', 'print', 'id', 'len', 'iter', 'next', 'list', 'vars', 'type', 'min', 'max', 'sum', 'range'}
@@ -1129,6 +1130,8 @@ class Emitter:
             recv, m, args = e[1], e[2], e[3]
             r = self.expr(recv)
             a = [self.expr(x) for x in args]
+            if m in ('by_ref', 'copied', 'cloned') and not a:
+                return r
             if m in ('clone', 'as_ref', 'iter', 'into_iter') and not a:
                 if m in ('iter', 'into_iter'):
                     return f'rs_iter({r})'
